@@ -57,9 +57,14 @@ static int connectTo(const std::string& path) {
   if (::connect(fd, (sockaddr*)&a, sizeof a) < 0) { ::close(fd); return -1; }
   return fd;
 }
-static std::string readAll(int fd) {
+// reads until the server hangs up (eof = true) or nothing arrives for patienceSec (eof = false)
+static std::string readAll(int fd, bool* eof = nullptr, int patienceSec = 4) {
+  timeval tv{patienceSec, 0};
+  setsockopt(fd, SOL_SOCKET, SO_RCVTIMEO, &tv, sizeof tv);
   std::string s; char b[1024]; ssize_t n;
   while ((n = ::read(fd, b, sizeof b)) > 0) s.append(b, n);
+  // (a server closing with unread request bytes left resets the connection: that is a hang-up too)
+  if (eof) *eof = n == 0 || (n < 0 && errno != EAGAIN && errno != EWOULDBLOCK && errno != EINTR);
   return s;
 }
 // number of JSON documents in s (0, 1, or 2 meaning "more than one / garbage"), error code of the first
@@ -279,14 +284,17 @@ int main(int argc, char** argv) {
         if ((unsigned char)first[0] >= 0x80 && !first.empty()) first = "x";
         bool must = cs.term == "nl" || cs.term == "nul" || cs.term == "halfclose" || (cs.term != "close" && cs.term != "rst" && cs.term != "closeaftersend" && cs.bytes.size() >= 32);
         if (cs.term == "halfclose") ::shutdown(fd, SHUT_WR);
-        if (cs.term == "close" || cs.term == "closeaftersend") { ::close(fd); evEmit(J().str("e", "ClientSaw").str("first", first).num("nReplies", 0).boolean("wellFormed", false).num("err", -1).boolean("mustReply", false).str("case", cs.term)); return; }
+        if (cs.term == "close" || cs.term == "closeaftersend") { ::close(fd); evEmit(J().str("e", "ClientSaw").str("first", first).num("nReplies", 0).boolean("wellFormed", false).num("err", -1).boolean("mustReply", false).boolean("closed", true).str("case", cs.term)); return; }
         if (cs.term == "rst") { linger lg{1, 0}; setsockopt(fd, SOL_SOCKET, SO_LINGER, &lg, sizeof lg); ::close(fd);
-                                evEmit(J().str("e", "ClientSaw").str("first", first).num("nReplies", 0).boolean("wellFormed", false).num("err", -1).boolean("mustReply", false).str("case", cs.term)); return; }
-        std::string reply = readAll(fd); // until EOF or the 4 s receive timeout
+                                evEmit(J().str("e", "ClientSaw").str("first", first).num("nReplies", 0).boolean("wellFormed", false).num("err", -1).boolean("mustReply", false).boolean("closed", true).str("case", cs.term)); return; }
+        // until the server hangs up; a server that never does (after its own 2 s receive timeout for a stalled client,
+        // however long the handlers were busy before) is waited for 30 s
+        bool eof = false;
+        std::string reply = readAll(fd, &eof, 30);
         ::close(fd);
         int nDocs; bool wf; int err;
         analyse(reply, nDocs, wf, err);
-        evEmit(J().str("e", "ClientSaw").str("first", first).num("nReplies", nDocs).boolean("wellFormed", wf).num("err", err).boolean("mustReply", must)
+        evEmit(J().str("e", "ClientSaw").str("first", first).num("nReplies", nDocs).boolean("wellFormed", wf).num("err", err).boolean("mustReply", must).boolean("closed", eof)
                    .str("case", cs.term).num("len", (long long)cs.bytes.size()));
       });
       for (auto& th : ths) th.join();
